@@ -50,3 +50,32 @@ package tan
 // entries strictly below the new range are untouched
 //@ ensures len(i.entries) <= old(len(i.entries)) + 1
 
+
+// ---------------------------------------------------------------- tan LogDB: fsync before SaveRaftState returns (C04)
+// gUnsynced: some record that must be durable (entries, snapshot, term/vote change) has been
+// written to the log file but not fsynced yet
+//@ ghost var gUnsynced bool
+
+//@ func (d *db) write [C04]
+//@ trusted body not verified here (encodes the update, appends the record, updates the index); reports whether an fsync is needed
+//@ ghostset gUnsynced := old(gUnsynced) || (result1 == nil && result0)
+
+//@ func (d *db) sync [C04]
+//@ trusted wraps the log file's Sync
+//@ ghostset gUnsynced := old(gUnsynced) && result != nil
+
+//@ func (l *LogDB) getDB [C04]
+//@ trusted looks up / opens the per-shard db
+//@ ensures result1 == nil ==> result0 != nil
+
+//@ func (c *collection) key [C04]
+//@ trusted pure function of the shard id
+
+// SaveRaftState (multiplexed mode) returns success only after every record that needs to be
+// durable has been fsynced
+//@ func (l *LogDB) concurrentSaveState [C04 C10]
+//@ noframe
+//@ requires !gUnsynced
+//@ modifies gUnsynced
+//@ ensures result == nil ==> !gUnsynced
+//@ loop 1 invariant gUnsynced ==> syncLog && selected != nil
